@@ -40,9 +40,61 @@ theorem recoverFrom_append (c : Cfg) (j1 j2 : Journal) : ∀ z,
     | none => rfl
     | some z' => exact ih z'
 
-theorem updateJ_zone (c : Cfg) (z : Zone) (j : Journal) (m : Msg) :
+/-- every row of the message can be written (`rowFits`: stand-alone wire form ≤ 65 535 octets —
+true of every RR a DNS message can carry) -/
+def MsgFits (m : Msg) : Prop := ∀ rr ∈ m.updates, rowFits rr = true
+def AllFit (h : List Msg) : Prop := ∀ m ∈ h, MsgFits m
+
+instance (m : Msg) : Decidable (MsgFits m) := by unfold MsgFits; exact inferInstance
+
+theorem insertRows_fit (recs : List Rec) : ∀ j, (∀ rr ∈ recs, rowFits rr = true) →
+    insertRows j recs = (j ++ recs, true) := by
+  induction recs with
+  | nil => intro j _; simp [insertRows]
+  | cons r rs ih =>
+    intro j h
+    unfold insertRows
+    rw [if_pos (h r List.mem_cons_self), ih _ (fun rr hr => h rr (List.mem_cons_of_mem _ hr))]
+    simp [List.append_assoc]
+
+theorem insertRows_prefix (recs : List Rec) : ∀ j, ∃ rows, (insertRows j recs).1 = j ++ rows := by
+  induction recs with
+  | nil => intro j; exact ⟨[], by simp [insertRows]⟩
+  | cons r rs ih =>
+    intro j
+    unfold insertRows
+    split
+    · obtain ⟨rows, h⟩ := ih (j ++ [r])
+      exact ⟨r :: rows, by rw [h]; simp [List.append_assoc]⟩
+    · exact ⟨[], by simp⟩
+
+theorem live_fit (c : Cfg) (z : Zone) (j : Journal) (recs : List Rec) (h : ∀ rr ∈ recs, rowFits rr = true) :
+    liveUpdateRecords c z j recs =
+      ((updateRecords c z recs true).1, j ++ recs ++ (updateRecords c z recs true).2.2.toList,
+       (updateRecords c z recs true).2.1) := by
+  unfold liveUpdateRecords
+  rw [insertRows_fit recs j h]
+
+/-- **a row that cannot be written refuses the whole message without a trace — if it is the first**:
+SERVFAIL, zone and journal as before … -/
+theorem oversized_first_row_no_trace (c : Cfg) (z : Zone) (j : Journal) (r : Rec) (rs : List Rec)
+    (h : rowFits r = false) : liveUpdateRecords c z j (r :: rs) = (z, j, .rc .servFail) := by
+  unfold liveUpdateRecords insertRows
+  simp [h]
+
+/-- … but not if it comes later (`insert_records` commits row by row): the rows before it stay in
+the journal of a refused message, and the next start replays them.  Reachable only through the
+Rust API (no DNS message can carry an RR of more than 65 535 octets); observation, not generated. -/
+theorem oversized_later_row_leaves_rows (c : Cfg) (z : Zone) (j : Journal) (r1 r2 : Rec) (rs : List Rec)
+    (h1 : rowFits r1 = true) (h2 : rowFits r2 = false) :
+    liveUpdateRecords c z j (r1 :: r2 :: rs) = (z, j ++ [r1], .rc .servFail) := by
+  unfold liveUpdateRecords insertRows insertRows
+  simp [h1, h2]
+
+theorem updateJ_zone (c : Cfg) (z : Zone) (j : Journal) (m : Msg) (hf : MsgFits m) :
     (updateJ c z j m).1 = (update c true z m).1 := by
-  unfold updateJ update liveUpdateRecords
+  unfold updateJ update
+  rw [live_fit c z j m.updates hf]
   simp only [Bool.not_true, Bool.false_eq_true, if_false]
   cases verifyPrereqs c z m.prereqs with
   | some e => rfl
@@ -51,9 +103,10 @@ theorem updateJ_zone (c : Cfg) (z : Zone) (j : Journal) (m : Msg) :
     | some e => rfl
     | none => rfl
 
-theorem updateJ_res (c : Cfg) (z : Zone) (j : Journal) (m : Msg) :
+theorem updateJ_res (c : Cfg) (z : Zone) (j : Journal) (m : Msg) (hf : MsgFits m) :
     (updateJ c z j m).2.2.2 = (update c true z m).2.2.1 := by
-  unfold updateJ update liveUpdateRecords
+  unfold updateJ update
+  rw [live_fit c z j m.updates hf]
   simp only [Bool.not_true, Bool.false_eq_true, if_false]
   cases verifyPrereqs c z m.prereqs with
   | some e => rfl
@@ -63,13 +116,13 @@ theorem updateJ_res (c : Cfg) (z : Zone) (j : Journal) (m : Msg) :
     | none => rfl
 
 /-- the journal never influences the zone: the journalled run is the plain run of C12 -/
-theorem runJ_zone (c : Cfg) (h : List Msg) : ∀ z j, (runJ c z j h).1 = runAll c z h := by
+theorem runJ_zone (c : Cfg) (h : List Msg) : ∀ z j, AllFit h → (runJ c z j h).1 = runAll c z h := by
   induction h with
-  | nil => intro z j; rfl
+  | nil => intro z j _; rfl
   | cons m ms ih =>
-    intro z j
+    intro z j hf
     simp only [runJ, runAll]
-    rw [ih, updateJ_zone]
+    rw [ih _ _ (fun m' hm => hf m' (List.mem_cons_of_mem _ hm)), updateJ_zone c z j m (hf m List.mem_cons_self)]
 
 theorem runJ_append (c : Cfg) (h1 h2 : List Msg) : ∀ z j,
     runJ c z j (h1 ++ h2) = runJ c (runJ c z j h1).1 (runJ c z j h1).2 h2 := by
@@ -91,7 +144,16 @@ theorem runJ_prefix (c : Cfg) (h : List Msg) : ∀ z j, ∃ rows, (runJ c z j h)
       | none =>
         cases Upd.preScan c m.updates with
         | some e => exact ⟨[], by simp⟩
-        | none => exact ⟨m.updates ++ (updateRecords c z m.updates true).2.2.toList, by simp [List.append_assoc]⟩
+        | none =>
+          simp only
+          obtain ⟨rows, hr⟩ := insertRows_prefix m.updates j
+          cases hi : insertRows j m.updates with
+          | mk j1 ok =>
+            rw [hi] at hr
+            simp only at hr
+            cases ok with
+            | false => exact ⟨rows, by simpa using hr⟩
+            | true => exact ⟨rows ++ (updateRecords c z m.updates true).2.2.toList, by simp [hr, List.append_assoc]⟩
     obtain ⟨r1, h1⟩ := hstep
     obtain ⟨r2, h2⟩ := ih (updateJ c z j m).1 (updateJ c z j m).2.1
     exact ⟨r1 ++ r2, by rw [h2, h1, List.append_assoc]⟩
@@ -193,10 +255,11 @@ theorem recoverRow_soa (c : Cfg) (z1 : Zone) (h : KInv c z1) (soa : Rec)
   simp [hup, applyAll]
 
 /-- **one message**: the rows a message appends replay, from the zone before it, to the zone after
-it (any well-formed zone). -/
-theorem updateJ_replays (c : Cfg) (z : Zone) (j : Journal) (m : Msg) (h : KInv c z) :
+it (any well-formed zone, every row writable). -/
+theorem updateJ_replays (c : Cfg) (z : Zone) (j : Journal) (m : Msg) (h : KInv c z) (hf : MsgFits m) :
     ∃ rows, (updateJ c z j m).2.1 = j ++ rows ∧ recoverFrom c z rows = some (updateJ c z j m).1 := by
-  unfold updateJ liveUpdateRecords
+  unfold updateJ
+  rw [live_fit c z j m.updates hf]
   cases h1 : verifyPrereqs c z m.prereqs with
   | some e => exact ⟨[], by simp, rfl⟩
   | none =>
@@ -223,16 +286,23 @@ def DumpReplays (c : Cfg) (z0 : Zone) : Prop := recover c (persist z0 []) = some
 
 instance (c : Cfg) (z0 : Zone) : Decidable (DumpReplays c z0) := by unfold DumpReplays; exact inferInstance
 
-theorem replay_run (c : Cfg) (h : List Msg) : ∀ z j, KInv c z →
+theorem allFit_cons {m : Msg} {ms : List Msg} (h : AllFit (m :: ms)) : MsgFits m ∧ AllFit ms :=
+  ⟨h m List.mem_cons_self, fun m' hm => h m' (List.mem_cons_of_mem _ hm)⟩
+
+theorem allFit_append {h1 h2 : List Msg} (h : AllFit (h1 ++ h2)) : AllFit h1 ∧ AllFit h2 :=
+  ⟨fun m hm => h m (List.mem_append_left _ hm), fun m hm => h m (List.mem_append_right _ hm)⟩
+
+theorem replay_run (c : Cfg) (h : List Msg) : ∀ z j, KInv c z → AllFit h →
     recover c j = some z → recover c (runJ c z j h).2 = some (runJ c z j h).1 := by
   induction h with
-  | nil => intro z j _ hr; exact hr
+  | nil => intro z j _ _ hr; exact hr
   | cons m ms ih =>
-    intro z j hk hr
+    intro z j hk hf hr
+    obtain ⟨hfm, hfs⟩ := allFit_cons hf
     simp only [runJ]
-    obtain ⟨rows, hj, hrep⟩ := updateJ_replays c z j m hk
-    have hk' : KInv c (updateJ c z j m).1 := by rw [updateJ_zone]; exact inv_preserved c z m hk
-    apply ih _ _ hk'
+    obtain ⟨rows, hj, hrep⟩ := updateJ_replays c z j m hk hfm
+    have hk' : KInv c (updateJ c z j m).1 := by rw [updateJ_zone c z j m hfm]; exact inv_preserved c z m hk
+    apply ih _ _ hk' hfs
     unfold recover at hr ⊢
     rw [hj, recoverFrom_append, hr]
     exact hrep
@@ -240,18 +310,18 @@ theorem replay_run (c : Cfg) (h : List Msg) : ∀ z j, KInv c z →
 /-- **recovery_refines_memory** — for every history, replaying the journal reconstructs exactly the
 in-memory zone (every acknowledged update present, none half-applied) at the message boundary. -/
 theorem recovery_refines_memory (c : Cfg) (z0 : Zone) (h : List Msg) (hk : KInv c z0)
-    (hd : DumpReplays c z0) : recover c (journalAfter c z0 h) = some (zoneAfter c z0 h) :=
-  replay_run c h z0 _ hk hd
+    (hd : DumpReplays c z0) (hf : AllFit h) : recover c (journalAfter c z0 h) = some (zoneAfter c z0 h) :=
+  replay_run c h z0 _ hk hf hd
 
 /-- **recovery_total** — recovery never fails on a journal the server itself wrote -/
 theorem recovery_total (c : Cfg) (z0 : Zone) (h : List Msg) (hk : KInv c z0)
-    (hd : DumpReplays c z0) : recover c (journalAfter c z0 h) ≠ none := by
-  rw [recovery_refines_memory c z0 h hk hd]; simp
+    (hd : DumpReplays c z0) (hf : AllFit h) : recover c (journalAfter c z0 h) ≠ none := by
+  rw [recovery_refines_memory c z0 h hk hd hf]; simp
 
 /-- **recovery_at_every_boundary** — a stop after the last row of *any* message of the history (the
 journal cut there) recovers the zone as of that boundary. -/
 theorem recovery_at_every_boundary (c : Cfg) (z0 : Zone) (h1 h2 : List Msg) (hk : KInv c z0)
-    (hd : DumpReplays c z0) :
+    (hd : DumpReplays c z0) (hf : AllFit (h1 ++ h2)) :
     recover c ((journalAfter c z0 (h1 ++ h2)).take (journalAfter c z0 h1).length) = some (zoneAfter c z0 h1) := by
   have hpre : ∃ rows, journalAfter c z0 (h1 ++ h2) = journalAfter c z0 h1 ++ rows := by
     unfold journalAfter
@@ -259,28 +329,30 @@ theorem recovery_at_every_boundary (c : Cfg) (z0 : Zone) (h1 h2 : List Msg) (hk 
     exact runJ_prefix c h2 _ _
   obtain ⟨rows, hrows⟩ := hpre
   rw [hrows, List.take_left']
-  · exact recovery_refines_memory c z0 h1 hk hd
+  · exact recovery_refines_memory c z0 h1 hk hd (allFit_append hf).1
   · rfl
 
 /-- **continue_after_recovery** — going on after a restart at a boundary is going on without one:
 the zone after `h₁ ++ h₂` is the run of `h₂` from the recovered zone. -/
 theorem continue_after_recovery (c : Cfg) (z0 : Zone) (h1 h2 : List Msg) (hk : KInv c z0)
-    (hd : DumpReplays c z0) :
+    (hd : DumpReplays c z0) (hf : AllFit (h1 ++ h2)) :
     ∃ zr, recover c (journalAfter c z0 h1) = some zr ∧ zoneAfter c z0 (h1 ++ h2) = runAll c zr h2 := by
-  refine ⟨zoneAfter c z0 h1, recovery_refines_memory c z0 h1 hk hd, ?_⟩
+  obtain ⟨hf1, hf2⟩ := allFit_append hf
+  refine ⟨zoneAfter c z0 h1, recovery_refines_memory c z0 h1 hk hd hf1, ?_⟩
   unfold zoneAfter
-  rw [runJ_append, runJ_zone]
+  rw [runJ_append, runJ_zone c h2 _ _ hf2]
 
 /-- … and the journal it then keeps writing (second crash) still replays to the zone -/
 theorem second_recovery (c : Cfg) (z0 : Zone) (h1 h2 : List Msg) (hk : KInv c z0)
-    (hd : DumpReplays c z0) :
+    (hd : DumpReplays c z0) (hf : AllFit (h1 ++ h2)) :
     ∃ zr, recover c (journalAfter c z0 h1) = some zr ∧
       recover c (runJ c zr (journalAfter c z0 h1) h2).2 = some (runAll c zr h2) := by
-  refine ⟨zoneAfter c z0 h1, recovery_refines_memory c z0 h1 hk hd, ?_⟩
+  obtain ⟨hf1, hf2⟩ := allFit_append hf
+  refine ⟨zoneAfter c z0 h1, recovery_refines_memory c z0 h1 hk hd hf1, ?_⟩
   have hk1 : KInv c (zoneAfter c z0 h1) := by
-    unfold zoneAfter; rw [runJ_zone]; exact (inv_preserved_history c h1 z0 hk).1
-  rw [← runJ_zone c h2 _ (journalAfter c z0 h1)]
-  exact replay_run c h2 _ _ hk1 (recovery_refines_memory c z0 h1 hk hd)
+    unfold zoneAfter; rw [runJ_zone c h1 _ _ hf1]; exact (inv_preserved_history c h1 z0 hk).1
+  rw [← runJ_zone c h2 _ (journalAfter c z0 h1) hf2]
+  exact replay_run c h2 _ _ hk1 hf2 (recovery_refines_memory c z0 h1 hk hd hf1)
 
 /-- along a history the serial only ever moves by RFC 1982 advances (across the wrap, too) -/
 theorem serial_path_run (c : Cfg) (h : List Msg) : ∀ z, KInv c z →
@@ -307,13 +379,14 @@ server last answered with, and whatever serial it had answered with earlier (aft
 of the history) is connected to it by RFC 1982 advances only — across `u32::MAX → 0` as well.
 (RFC 1982's "newer" is not transitive beyond 2³¹, hence the chain rather than one comparison.) -/
 theorem serial_monotone_across_recovery (c : Cfg) (z0 : Zone) (h1 h2 : List Msg) (hk : KInv c z0)
-    (hd : DumpReplays c z0) :
+    (hd : DumpReplays c z0) (hf : AllFit (h1 ++ h2)) :
     ∃ zr, recover c (journalAfter c z0 (h1 ++ h2)) = some zr ∧
       serial zr c.origin = serial (zoneAfter c z0 (h1 ++ h2)) c.origin ∧
       SerialPath (serial (zoneAfter c z0 h1) c.origin) (serial zr c.origin) := by
-  refine ⟨zoneAfter c z0 (h1 ++ h2), recovery_refines_memory c z0 _ hk hd, rfl, ?_⟩
+  obtain ⟨hf1, hf2⟩ := allFit_append hf
+  refine ⟨zoneAfter c z0 (h1 ++ h2), recovery_refines_memory c z0 _ hk hd hf, rfl, ?_⟩
   unfold zoneAfter
-  rw [runJ_append, runJ_zone, runJ_zone]
+  rw [runJ_append, runJ_zone c h2 _ _ hf2, runJ_zone c h1 _ _ hf1]
   exact serial_path_run c h2 _ (inv_preserved_history c h1 z0 hk).1
 
 /-! ### the negative result: cuts inside a row group (known finding) -/
@@ -356,6 +429,13 @@ theorem cut_inside_update :
       rrsetOf zr (nm 100, T_A) ≠ [] ∧ serial zr exOrigin = 100 ∧ serial z1 exOrigin = 101)) = true ∧
     recovered (recover c (j.take 3)) (fun zr => decide (zr ≠ z0 ∧ rrsetOf zr (nm 97, T_A) = [])) = true := by
   decide
+
+/-- non-vacuity: the rows of the example history fit, and a row of 65 535 octets of RDATA does not -/
+example : MsgFits twoAdds := by decide
+
+example (b : Bytes) (h : b.length = 65535) :
+    rowFits { name := nm 98, rtype := 16, cls := 1, ttl := 300, rdata := .bytes b } = false := by
+  simp [rowFits, rdataLen, h]
 
 /-- non-vacuity: the example history satisfies the hypotheses of the theorems above -/
 example : KInv exCfg (exZone 100) ∧ DumpReplays exCfg (exZone 100) :=
